@@ -118,14 +118,15 @@ class Session:
     set_step = start_step
 
     def end_step(self):
-        assert self.cursor.step, "There is no started step"
+        assert self.cursor.step is not None, "There is no started step"
         self._discard_or_fire_event(
             events.StepStartEvent, events.StepEndEvent(self.cursor.location, self.cursor.step, _get_thread_id())
         )
         self.cursor.step = None
 
     def _end_step_if_any(self):
-        if self.cursor.step:
+        # NB: a step whose description is an empty string is a step like any other
+        if self.cursor.step is not None:
             self.end_step()
 
     def _log(self, level, content):
